@@ -5,16 +5,25 @@ from .. import engine, common
 
 
 def flavours_for(tier, seed, allowed=(0, 1, 2, 3)):
-    """quick: flavour 0 plus one more selected by VERIF_SEED; thorough: all.  The seed never
-    samples inside a space: it rotates which complete bounded space is enumerated on top."""
+    """list of (flavour, reduced).  quick: flavour 0 and one more selected by VERIF_SEED get the full universes, every
+    other allowed flavour a reduced set (U0, U2 depth 1, TWO depth 2, LONG, UC) so that type- and magnitude-dependent
+    behaviour is exercised whatever the seed; thorough: everything in full.  The seed never samples inside a space: it
+    rotates which complete bounded space is enumerated in full on top of the fixed ones."""
     allowed = list(allowed)
     if tier == 'thorough':
-        return allowed
+        return [(f, False) for f in allowed]
     rest = [f for f in allowed if f != 0]
-    out = [0] if 0 in allowed else []
+    full = [0] if 0 in allowed else []
     if rest:
-        out.append(rest[seed % len(rest)])
-    return out
+        full.append(rest[seed % len(rest)])
+    return [(f, f not in full) for f in allowed]
+
+
+REDUCED = {'which': ('U0', 'U2', 'TWO', 'LONG', 'UC'), 'params': {'u2_depth': 1, 'two_depth': 2, 'long_depth': 4, 'uc_depth': 3}}
+# for properties whose per-state work is a large fan-out (every entry point x instant, every window, every API call ...)
+REDUCED_LIGHT = {'which': ('U0', 'TWO', 'UC'), 'params': {'two_depth': 2, 'uc_depth': 3}}
+NO_LONG = ('U0', 'U1', 'U2', 'TWO', 'U3', 'UC')
+REDUCED_TINY = {'which': ('U0', 'TWO', 'UC'), 'params': {'two_depth': 1, 'uc_depth': 3}}
 
 
 def tier_params(tier):
@@ -23,7 +32,7 @@ def tier_params(tier):
     return dict(w=4, u1_depth=5, u2_depth=2, two_depth=3, u3_depth=1)
 
 
-def explore_universes(spec, conf, tier, which=('U0', 'U1', 'U2', 'TWO', 'U3'), keep_states=False, params=None, opfilter=None):
+def explore_universes(spec, conf, tier, which=('U0', 'U1', 'U2', 'TWO', 'U3', 'LONG', 'UC'), keep_states=False, params=None, opfilter=None):
     """run the named universes for one configuration with a shared de-duplication set;
     returns (merged Result, per-universe summary list)"""
     p = dict(tier_params(tier))
@@ -43,12 +52,20 @@ def explore_universes(spec, conf, tier, which=('U0', 'U1', 'U2', 'TWO', 'U3'), k
         plans.append(('TWO', U.alphabet_two_pairs(conf), p['two_depth'], ()))
     if 'U3' in which:
         plans.append(('U3', U.alphabet_U2(conf), p['u3_depth'], U.seeds_U3(conf)))
-    for name, alpha, depth, seeds in plans:
+    plans = [(n, conf, a, d, s) for (n, a, d, s) in plans]
+    if 'LONG' in which:
+        lconf = dict(conf, w=11)
+        plans.append(('LONG', lconf, U.alphabet_LONG(lconf), p.get('long_depth', 5 if tier == 'quick' else 6), ()))
+    if 'UC' in which:
+        plans.append(('UC', conf, U.alphabet_UC(conf), p.get('uc_depth', 4 if tier == 'quick' else 5), ()))
+    for name, pconf, alpha, depth, seeds in plans:
+        if pconf is not conf:
+            seen = set()          # another window: its own de-duplication set
         if opfilter:
             alpha = [o for o in alpha if opfilter(o)]
             seeds = [s for s in seeds if all(opfilter(o) for o in s)]
-        r = engine.bfs(spec, conf, alpha, depth, seeds=seeds, seen=seen, keep_states=keep_states)
-        summary.append({'universe': name, 'conf': U.conf_name(conf), 'alphabet': len(alpha), 'depth': depth,
+        r = engine.bfs(spec, pconf, alpha, depth, seeds=seeds, seen=seen, keep_states=keep_states)
+        summary.append({'universe': name, 'conf': U.conf_name(pconf), 'alphabet': len(alpha), 'depth': depth,
                         'seeds': len(seeds), 'states': r.states, 'transitions': r.transitions,
                         'per_depth_new_states': r.per_depth, 'outcomes': dict(r.outcomes), 'dead': r.dead,
                         'state_space_closed': r.closed})
@@ -92,8 +109,8 @@ class StateSpec(engine.Spec):
 
 
 def run_state_property(prop, level, fn, tier, seed, classes=('DynGraph', 'DynDiGraph'), modes=(True,),
-                       which=('U0', 'U1', 'U2', 'TWO', 'U3'), flavours=(0, 1, 2, 3), rule='', params=None,
-                       assumptions=(), vacuity=None, sample_fn=None, opfilter=None):
+                       which=('U0', 'U1', 'U2', 'TWO', 'U3', 'LONG', 'UC'), flavours=(0, 1, 2, 3, 5, 6), rule='', params=None,
+                       assumptions=(), vacuity=None, sample_fn=None, opfilter=None, reduced=None, acc_reduced=False):
     known = common.load_known()
     rep = common.Report(prop, tier, seed, level)
     p = dict(tier_params(tier))
@@ -101,11 +118,17 @@ def run_state_property(prop, level, fn, tier, seed, classes=('DynGraph', 'DynDiG
         p.update(params)
     spec = StateSpec(prop, fn)
     sums = {}
-    for fl in flavours_for(tier, seed, flavours):
+    reduced_cfg = reduced
+    for fl, reduced in flavours_for(tier, seed, flavours):
         for cls in classes:
             for removal in modes:
                 conf = U.conf_make(cls, removal, fl, p['w'])
-                total, summary = explore_universes(spec, conf, tier, which=which, params=params, opfilter=opfilter)
+                if reduced or (not removal and acc_reduced):
+                    red = reduced_cfg or REDUCED
+                    total, summary = explore_universes(spec, conf, tier, which=[u for u in red['which'] if u in which],
+                                                       params=dict(params or {}, **red['params']), opfilter=opfilter)
+                else:
+                    total, summary = explore_universes(spec, conf, tier, which=which, params=params, opfilter=opfilter)
                 rep.cov['per_universe'] += summary
                 rep.cov['states'] += total.states
                 rep.cov['transitions'] += total.transitions
